@@ -79,6 +79,15 @@ def _w(c):
         return f"exception {type(e).__name__}: {e}"
 
 
+def _w_seq(cs):
+    """several grids evaluated one after the other in ONE process (same N and radii, different algorithms, then again in
+    reverse order): results must not depend on what was computed before"""
+    out = []
+    for c in list(cs) + list(cs)[::-1]:
+        out.append((c, _w(c)))
+    return out
+
+
 def run(tier, seed):
     Ns = [4, 5, 7, 12, 20, 33, 42] if tier == "quick" else list(range(4, 60)) + [80, 100, 162]
     cases = [{"o": f"{alg}_{N}", "t": t} for alg in ("ico", "cube3D", "randomS") for N in Ns
@@ -93,9 +102,25 @@ def run(tier, seed):
         res.case((c["o"], c["t"]), nontrivial=True, sample=c)
         if f:
             res.fail(f, c, clause="volumes / adjacency / borders / distances / sums")
+    # history independence: groups sharing N and radii, all three algorithms in one process, forwards and backwards
+    groups = [[{"o": f"{alg}_{N}", "t": t} for alg in ("ico", "cube3D", "randomS")] for N in Ns[:6] for t in T_TEXTS[:2]]
+    with mp.Pool(min(16, os.cpu_count() or 1), maxtasksperchild=1) as pool:
+        seqs = pool.map(_w_seq, groups, chunksize=1)
+    for grp in seqs:
+        for pos, (c, f) in enumerate(grp):
+            res.case(("seq", c["o"], c["t"], pos), nontrivial=True)
+            if f:
+                res.fail(f + " [after other grids with the same N and radii were computed in the same process]",
+                         {"sequence": [g[0] for g in grp[:pos + 1]]}, clause="history independence")
     res.clause("entrywise formulas + sums", len(cases))
+    res.clause("same-process sequences across algorithms", sum(len(g) for g in seqs))
     return res
 
 
 def replay(case):
+    if "sequence" in case:
+        f = None
+        for c in case["sequence"]:
+            f = _w(c)
+        return f
     return evaluate(case)
